@@ -21,6 +21,38 @@ structure DState where
   sizes : List (Entry × Nat) := []
   coord : Coord := { cfg := { prepareTimeoutMs := 5000, maxConcurrent := 100 } }
 
+/-! Long records.  A wide transaction has tens of thousands of participant shards: its TxBegin /
+    AbortIntent records are hundreds of KB.  Two things keep the protocol lines short and the driver
+    inside its stack: a run of at least 32 consecutive shard ids is written `lo..hi` (both sides
+    apply the same rule, so the notation is canonical), and hex payloads are decoded by a
+    tail-recursive loop (`Proto.unhex` recurses once per byte). -/
+
+def isRun : List Nat → Bool
+  | a :: b :: r => if b == a + 1 then isRun (b :: r) else false
+  | _ => true
+
+def showParts (xs : List Nat) : String :=
+  match xs with
+  | lo :: _ => if xs.length ≥ 32 && isRun xs then s!"{lo}..{lo + xs.length - 1}" else showNats xs
+  | [] => "-"
+
+def parseParts (s : String) : Option (List Nat) :=
+  match s.splitOn ".." with
+  | [a, b] => match a.toNat?, b.toNat? with
+      | some lo, some hi => if lo ≤ hi then some (List.range' lo (hi - lo + 1)) else none
+      | _, _ => none
+  | _ => parseNats s
+
+def unhexGo : List Char → List Nat → Option (List Nat)
+  | [], acc => some acc.reverse
+  | a :: b :: rest, acc => match hexDigit a, hexDigit b with
+      | some x, some y => unhexGo rest ((x * 16 + y) :: acc)
+      | _, _ => none
+  | _, _ => none
+
+def unhexFast (s : String) : Option (List Nat) :=
+  if s = "-" then some [] else unhexGo s.toList []
+
 def phaseNum : Phase → Nat
   | .preparing => 0 | .prepared => 1 | .committing => 2 | .committed => 3 | .aborting => 4 | .aborted => 5
 
@@ -47,24 +79,24 @@ def parseVote (s : String) : Option Vote :=
     | _ => none
 
 def showEntry : Entry → String
-  | .txBegin tx ps => s!"B:{tx}:{showNats ps}"
+  | .txBegin tx ps => s!"B:{tx}:{showParts ps}"
   | .prepareVote tx sh v => s!"V:{tx}:{sh}:{showKind v}"
   | .phaseChange tx f t => s!"P:{tx}:{phaseNum f}:{phaseNum t}"
   | .txComplete tx o => s!"C:{tx}:" ++ (match o with | .committed => "c" | .aborted => "a")
   | .lockRelease tx h => s!"L:{tx}:{h}"
   | .allLocksReleased tx => s!"R:{tx}"
-  | .abortIntent tx r sh => s!"I:{tx}:{r.replace " " "_"}:{showNats sh}"
+  | .abortIntent tx r sh => s!"I:{tx}:{r.replace " " "_"}:{showParts sh}"
 
 def parseEntry (s : String) : Option Entry :=
   match s.splitOn ":" with
-  | ["B", tx, ps] => do pure (.txBegin (← tx.toNat?) (← parseNats ps))
+  | ["B", tx, ps] => do pure (.txBegin (← tx.toNat?) (← parseParts ps))
   | ["V", tx, sh, k] => do pure (.prepareVote (← tx.toNat?) (← sh.toNat?) (← parseKind k))
   | ["P", tx, f, t] => do pure (.phaseChange (← tx.toNat?) (← numPhase (← f.toNat?)) (← numPhase (← t.toNat?)))
   | ["C", tx, "c"] => do pure (.txComplete (← tx.toNat?) .committed)
   | ["C", tx, "a"] => do pure (.txComplete (← tx.toNat?) .aborted)
   | ["L", tx, h] => do pure (.lockRelease (← tx.toNat?) (← h.toNat?))
   | ["R", tx] => do pure (.allLocksReleased (← tx.toNat?))
-  | ["I", tx, r, sh] => do pure (.abortIntent (← tx.toNat?) (r.replace "_" " ") (← parseNats sh))
+  | ["I", tx, r, sh] => do pure (.abortIntent (← tx.toNat?) (r.replace "_" " ") (← parseParts sh))
   | _ => none
 
 def showEntries (es : List Entry) : String :=
@@ -84,14 +116,14 @@ def showKVotes (vs : List (Nat × VoteKind)) : String :=
 
 def showRecTxs (rs : List RecTx) : String :=
   let rs := sortBy (fun a b => a.tx < b.tx) rs
-  "[" ++ ";".intercalate (rs.map fun r => s!"{r.tx}:{showNats r.parts}:{showKVotes r.votes}") ++ "]"
+  "[" ++ ";".intercalate (rs.map fun r => s!"{r.tx}:{showParts r.parts}:{showKVotes r.votes}") ++ "]"
 
 def showRecovery (r : Recovery) : String :=
   let orph := sortBy natPairLt r.orphaned
   let ints := sortBy (fun a b => a.1 < b.1) r.pendingAbortIntents
   s!"prepared={showRecTxs r.prepared} committing={showRecTxs r.committing} aborting={showRecTxs r.aborting}" ++
   " orphans=[" ++ ";".intercalate (orph.map fun p => s!"{p.1}.{p.2}") ++ "]" ++
-  " intents=[" ++ ";".intercalate (ints.map fun p => s!"{p.1}:{p.2.1.replace " " "_"}:{showNats p.2.2}") ++ "]"
+  " intents=[" ++ ";".intercalate (ints.map fun p => s!"{p.1}:{p.2.1.replace " " "_"}:{showParts p.2.2}") ++ "]"
 
 def showVotes (vs : List (Nat × Vote)) : String :=
   let vs := sortBy (fun a b => a.1 < b.1) vs
@@ -102,9 +134,9 @@ def showCoord (c : Coord) : String :=
   let ls := sortBy natPairLt (c.locks.map fun p => (p.2, p.1))
   let pa := sortBy (fun a b => a.1 < b.1 || (a.1 == b.1 && a.2.1 < b.2.1)) c.pendingAborts
   "pending=[" ++ ";".intercalate (ps.map fun p =>
-      s!"{p.1}:{phaseNum p.2.phase}:{showNats p.2.parts}:{showVotes p.2.votes}:{p.2.timeoutMs}") ++ "]" ++
+      s!"{p.1}:{phaseNum p.2.phase}:{showParts p.2.parts}:{showVotes p.2.votes}:{p.2.timeoutMs}") ++ "]" ++
   " locks=[" ++ ";".intercalate (ls.map fun p => s!"{p.1}.{p.2}") ++ "]" ++
-  " aborts=[" ++ ";".intercalate (pa.map fun p => s!"{p.1}:{p.2.1.replace " " "_"}:{showNats p.2.2}") ++ "]"
+  " aborts=[" ++ ";".intercalate (pa.map fun p => s!"{p.1}:{p.2.1.replace " " "_"}:{showParts p.2.2}") ++ "]"
 
 def showRes : Res → String
   | .ok => "ok"
@@ -160,23 +192,23 @@ def txStep (s : DState) (line : String) : DState × String :=
   let bad := (s, "bad-op")
   let crc := Crc32.crc32
   match words line with
-  | ["def", h, tok] => match unhex h, parseEntry tok with
+  | ["def", h, tok] => match unhexFast h, parseEntry tok with
       | some b, some e => ({ s with dict := (b, e) :: s.dict, sizes := (e, 8 + b.length) :: s.sizes }, "ok")
       | _, _ => bad
   | ["reset_dict"] => ({ s with dict := [], sizes := [] }, "ok")
-  | ["crc", h] => match unhex h with
+  | ["crc", h] => match unhexFast h with
       | some b => (s, toString (crc b)) | none => bad
-  | ["frame", h] => match unhex h with
+  | ["frame", h] => match unhexFast h with
       | some b => (s, hex (encodeRec crc b)) | none => bad
-  | ["frame0", h] => match unhex h with       -- `enable_checksums = false`
+  | ["frame0", h] => match unhexFast h with       -- `enable_checksums = false`
       | some b => (s, hex (encodeRec (fun _ => 0) b)) | none => bad
-  | ["valid_len", h] => match unhex h with
+  | ["valid_len", h] => match unhexFast h with
       | some b => (s, toString (validPrefixLen b)) | none => bad
-  | ["replay", h] => match unhex h with
+  | ["replay", h] => match unhexFast h with
       | some b => (match replay crc (deOf s.dict) b with
           | some es => (s, "ok " ++ showEntries es) | none => (s, "err checksum"))
       | none => bad
-  | ["recover", h] => match unhex h with
+  | ["recover", h] => match unhexFast h with
       | some b => (match replay crc (deOf s.dict) b with
           | some es => (s, showRecovery (fromEntries es)) | none => (s, "err checksum"))
       | none => bad
@@ -190,7 +222,7 @@ def txStep (s : DState) (line : String) : DState × String :=
       | some t, some mx =>
           ({ s with sizes := [], coord := { cfg := { prepareTimeoutMs := t, maxConcurrent := mx } } }, "ok")
       | _, _ => bad
-  | ["restart", h, now] => match unhex h, now.toNat? with
+  | ["restart", h, now] => match unhexFast h, now.toNat? with
       -- `restartBytes`, with the counter of the new process where `new` / `set_counter` left it
       -- (1 unless the harness said otherwise: then this is `restartBytes` itself)
       | some b, some now => (match (replay crc (deOf s.dict) (openRepair b)).map
@@ -213,7 +245,7 @@ def txStep (s : DState) (line : String) : DState × String :=
   | ["trylock", tx] => match tx.toNat? with
       | some tx => ({ s with coord := (tryLock s.coord tx).1 }, toString s.coord.nextHandle) | none => bad
   | ["state"] => (s, s!"{showCoord s.coord} next={s.coord.nextHandle}")
-  | ["begin", id, ps, now] => match id.toNat?, parseNats ps, now.toNat? with
+  | ["begin", id, ps, now] => match id.toNat?, parseParts ps, now.toNat? with
       | some id, some ps, some now => sized s (fun sz c => begin sz c id ps now) | _, _, _ => bad
   | ["vote", id, sh, v, x] => match id.toNat?, sh.toNat?, parseVote v, x.toNat? with
       | some id, some sh, some v, some x => sized s (fun sz c => recordVote sz c id sh v (x != 0))
